@@ -409,7 +409,8 @@ def eval_namespace(item):
 
 
 def _w_ns(item):
-    return (pair_key(item["a"], item["b"]) + " fn=%s updated=%d" % (item["fn"], item["updated"]), eval_namespace(item))
+    return (pair_key(item["a"], item["b"]) + " other-%s fn=%s updated=%d" % (ns_key(item["b"]["ns"]), item["fn"], item["updated"]),
+            eval_namespace(item))
 
 
 # ----------------------------------------------------------------------------- histories
